@@ -210,3 +210,12 @@ def rule_alias_test(ctx):
         if n:
             ctx.instance(f"punct:{ch}", sample={"char": ch, "uses": n, "operators_sharing_it": ops})
     # `->` inside `::<..>` closes the angle bracket early, `|=` opens a closure bracket: exotic, listed in DESIGN.md as residual hazards (not decided)
+
+
+def rule_ident_argument(ctx):
+    """IDENT-ARG: an argument is a plain field reference (`Expr::Ident`, the only kind of argument bounds and transparency are inferred from) exactly when it is a single identifier followed by `,` or the end, recognised with `Cursor::ident()` - which looks through the invisible groups `macro_rules!` wraps around `$arg:expr` fragments; a test on the raw token tree misses those and the bound of a generic field is silently not generated."""
+    fn = A.get_fn(ctx.files, PARSING, "<Expr as Parse>::parse")
+    t = A.fn_text(fn)
+    ctx.instance("ident-only")
+    if "c.ident().filter(|(_,c)|c.eof()||punct(',')(*c).is_some())" not in t or t.count("Self::Ident(") != 1:
+        ctx.report("split:ident-only", ctx.where(fn.file, fn.node), "`Expr::Ident` is no longer produced only for an argument consisting of a single identifier (followed by `,` or the end), found through `Cursor::ident()`", {})
